@@ -1,4 +1,4 @@
-from sa.selftest.harness import M, T
+from sa.selftest.harness import M, T, Variant
 
 A = "sharepoint2text/parsing/extractors/archive_extractor.py"
 S = "sharepoint2text/parsing/extractors/util/sevenzip.py"
@@ -17,6 +17,7 @@ MUTANTS = [
     M("routed-extractor-test-removed", A, "    if _get_file_extractor_cached(basename) is read_archive:\n        return True\n", "", "C09-SKIP"),
 ]
 TWINS = [
+    T("safe-join-prefix-with-path-sep", "sharepoint2text/parsing/extractors/util/sevenzip.py", "    if not target_abs.startswith(base_abs + os.sep):", "    if not target_abs.startswith(base_abs + os.path.sep):"),
     T("safe-join-result-inline", S, "            file_path = _safe_join(base_path, file_info.filename)\n            parent_dir = os.path.dirname(file_path)", "            file_path = _safe_join(base_path, file_info.filename)\n            parent_dir = os.path.dirname(_safe_join(base_path, file_info.filename))"),
     T("tempdir-var-renamed", A, "            with tempfile.TemporaryDirectory() as temp_dir:\n                try:\n                    szf.extractall(path=temp_dir)", "            with tempfile.TemporaryDirectory() as temp_dir:\n                try:\n                    szf.extractall(temp_dir)"),
     # since fix 404e9f8 every member the router sends back to read_archive is skipped: the suffix list is only a fast path
